@@ -3,6 +3,7 @@ import PdModel.Proto
 /-! Line protocol for the Escape model (`escape <op> …`); strings travel as `u:<code points>`.
 
 * `content|attr|cdata|comment|encode|attval|neutralise s`      → `ok <s'>`
+* `starttag tag name value` (docutils start tag with one attribute)   → `ok <s'>`
 * `unescape s`                                                 → `ok <s'>` | `malformed`
 * `html2stan s`  (markup-free html → `flatten(html2stan(s))`)  → `ok <s'>` | `SAXParseException`
 * `doublepath s` (text → docutils `encode` → `html2stan` → flatten) → `ok <s'>` | `SAXParseException`
@@ -63,6 +64,10 @@ def handle (args : List String) : String :=
   | "comment" :: r => str1 (fun s => okStr (escapedComment s)) r
   | "encode" :: r => str1 (fun s => okStr (encode s)) r
   | "attval" :: r => str1 (fun s => okStr (attval s)) r
+  | ["starttag", t, k, v] =>
+    match Proto.decodeStr t, Proto.decodeStr k, Proto.decodeStr v with
+    | some t, some k, some v => okStr (starttag1 t k v)
+    | _, _, _ => "bad-op"
   | "neutralise" :: r => str1 (fun s => okStr (neutralise s)) r
   | "unescape" :: r => str1 (fun s => match unescape s with
       | some t => okStr t
